@@ -217,7 +217,8 @@ def gen_case(rng, tier):
             d = g.normal(size=m)
             d /= np.linalg.norm(d)
             yo = y[k] + d * math.sqrt(lam_min) * float(g.choice([12.0, 25.0, 38.0, 45.0]))
-        x2 = float(g.choice([-1.0, -1.0, 0.0, 1e-6, 0.1, 1.0, 2.5, 10.0, 50.0, 1e3, 1e6]))
+        x2 = float(g.choice([-1.0, -1.0, 0.0, 1e-6, 0.1, 0.5, 1.0, 2.0, 2.5, 8.0, 10.0, 50.0, 1e3, 1e6,
+                             float(10.0 ** g.uniform(-3, 3))]))
         queries.append({"kind": kind, "y_obs": [float(v) for v in yo], "x2_max": x2})
     # always: the unrestricted estimate and a zero-width window on an exact entry
     queries.append({"kind": "entry", "y_obs": [float(v) for v in y[int(g.integers(0, n))]], "x2_max": 0.0})
@@ -462,17 +463,23 @@ def run_case(ck, case, use_model=True):
             inv[real.order] = np.arange(n)
             ops.append("rows " + " ".join(fs(v) for i in range(n) for v in rows[inv[i]]))
             ops += ["window " + qargs, "predict " + qargs, "cdf " + qargs]
+            # entries outside the MODEL's window whose chi2 (oracle, as double) is <= x2_max: must be none
+            thr = F(x2 * (1 - 1e-9)) if restricted else Fraction(0)
+            ops.append(f"excl {qargs} {fs(thr)}")
+            n_excl_py = int(np.sum((chi2s[~inwin].astype(float) <= float(thr)))) if restricted else 0
             model_lines.append(ops)
-            model_expect.append((qi, ro, c_float, xsorted[il:iu]))
+            model_expect.append((qi, ro, c_float, xsorted[il:iu], n_excl_py))
 
     if use_model and model_lines:
         flat = [l for ops in model_lines for l in ops]
         out = ck.driver(flat)
         pos = 0
-        for ops, (qi, ro, c_float, xw) in zip(model_lines, model_expect):
+        for ops, (qi, ro, c_float, xw, n_excl_py) in zip(model_lines, model_expect):
             o = out[pos:pos + len(ops)]
             pos += len(ops)
             compare_model(ck, sub(qi), o, ro, c_float, xw, taus)
+            if o[7].split()[0] == "ok" and o[8] == f"{ro['il']} {ro['iu']}" and o[11] != str(n_excl_py):
+                ck.disagree(f"x2_max={case['queries'][qi]['x2_max']}: entries left out with chi2 <= x2_max: model {o[11]} vs harness {n_excl_py}", sub(qi))
 
 
 def parse_est(s):
@@ -499,7 +506,7 @@ def parse_q(s):
 
 
 def compare_model(ck, c1, o, ro, c_float, xw, taus):
-    """o = driver answers to [load, window, predict, cdf, quant, quant-, quant+, rows, window, predict, cdf]"""
+    """o = driver answers to [load, window, predict, cdf, quant, quant-, quant+, rows, window, predict, cdf, excl]"""
     x2 = c1["queries"][0]["x2_max"]
     tag = f"x2_max={x2}"
     if o[0] != "ok":
